@@ -162,6 +162,11 @@ func (s *JavaIdentifierListener) EnterAnnotation(ctx *parser.AnnotationContext) 
 		return
 	}
 
+	// an annotation used as the argument of another one does not annotate the declaration
+	if _, nested := ctx.GetParent().(*parser.ElementValueContext); nested {
+		return
+	}
+
 	annotationName := ctx.QualifiedName().GetText()
 	if annotationName == "Override" {
 		isOverrideMethod = true
